@@ -4,16 +4,23 @@ PROP = dict(
     title="Names resolve to the innermost visible declaration; imports are exact",
     lean_module="AbraProofs.Properties.C21",
     required_theorems=["C21_lookup_innermost", "C21_lookup_innermost_scope", "C21_import_exact",
-                       "C21_import_first_supplier", "C21_qualified_same_decl", "C21_clash_iff", "C21_clash_iff_own"],
+                       "C21_import_first_supplier", "C21_qualified_same_decl", "C21_clash_iff", "C21_clash_iff_own",
+                       "C21_children_exact", "C21_child_visible_iff", "C21_filtered_child_invisible",
+                       "C21_qualified_variant_same_decl", "C21_children_follow_decls", "C21_pattern_same_decl"],
     harness_bin="c21",
     mismatch_is_violation=True,
     rule="(quick) 700 / (thorough) 12000 seeded multi-file programs built from an abstract description: 1-4 files, names from a "
          "pool of 6 plus one prelude name and one intrinsic name, 0-3 imports per file of every form (glob, inclusion list, "
          "except list, as-prefix; also of a missing file, of the file itself, of one file twice, cyclic), every file's function "
          "body and the main file's top level filled with let / block / if / while / for / match-arm / lambda-parameter binders "
-         "nested <= 3 deep and plain / prefix-qualified uses (9 in 10 picked among the names visible at that point); half of the "
-         "programs are generated clash-free; every declaration prints a unique tag and every use is a call, so the output "
-         "names the declaration each use reached; unresolved / clash / bad-import diagnostics are read from check_lsp; "
+         "nested <= 3 deep and plain / prefix-qualified uses (9 in 10 picked among the names visible at that point); every file "
+         "also declares 0-2 enums / interfaces from a pool of 3 type names (the same name in several files, with different "
+         "variant sets) and its bodies use variants both as qualified patterns `Ty.V` in match arms (resolved through the child "
+         "namespaces) and as expressions `[prefix.]Ty.V` (resolved through the declarations), incl. variants only another file's "
+         "enum of that name has; half of the programs are generated clash-free (clashing names of glob / list imports are moved "
+         "into `except` / out of the inclusion list, which yields filtered imports next to an own declaration of the same name), "
+         "two thirds of those with valid uses only; every declaration prints a unique tag, every use is a call or a match against "
+         "a value of the expected enum, so the output names the declaration each use reached; unresolved / clash / bad-import diagnostics are read from check_lsp; "
          "distinct = distinct program descriptions; non-trivial = the program has an import or a shadowing binder",
     nontrivial=lambda req, imp: any(c in req for c in ("{", " g", " i", " e", " a")),
     trusted_base=COMMON_TB + [
@@ -21,7 +28,8 @@ PROP = dict(
         "file discovery (lib.rs get_files/add_imports) is exercised by the correspondence only",
     ],
     assumptions=[
-        "declarations are top-level functions; enum/struct/interface namespaces are not generated",
+        "declarations are top-level functions, enums and interfaces; struct definitions, member functions and two-level "
+        "qualified patterns (the parser accepts one prefix only) are not generated; local binders never reuse a type name",
         "the for-loop variable is scoped to the loop (D39 repaired); until that fix lands the check reports the leak",
     ],
     design_ref="DESIGN.md §6 C21",
@@ -29,10 +37,12 @@ PROP = dict(
                "resolve_imports_file, SymbolTable and resolve_names_stmt: the scope-stack algorithm computes textbook lexical "
                "scoping; the visible names of a file are exactly builtins, prelude, own declarations and what each import form "
                "lets through; a prefix-qualified name reaches the declaration a plain import supplies; a clash is reported exactly "
-               "for names supplied twice. Tied to /repo on every run by generated multi-file programs whose output names the "
+               "for names supplied twice; child namespaces (enum variants, interface methods, prefixes) are visible exactly when "
+               "their declaration is, and in a clash-free program a qualified variant pattern reaches the same enum as the "
+               "expression. Tied to /repo on every run by generated multi-file programs whose output names the "
                "declaration reached by every use, compared with the model and with an independent environment-passing reference.",
-    level_note="The step from resolve.rs to Abra.Names is checked by correspondence, not proved; declarations are functions and "
-               "local binders only (no type/enum namespaces). Trusts the harness and the Lean kernel.",
+    level_note="The step from resolve.rs to Abra.Names is checked by correspondence, not proved; declarations are functions, enums, "
+               "interfaces and local binders (no structs / member functions). Trusts the harness and the Lean kernel.",
     technique="Lean 4 theorems (mutual structural induction over statements, list lemmas) about a hand-written model + differential "
               "correspondence against the real front end and VM",
     exhaustive=lambda tier: False,
